@@ -126,13 +126,13 @@ def _main(pid, tier, seed, args, workdir, t0):
     timeout_s = getattr(prop, 'TIMEOUT', {}).get(tier, 10 if tier == 'quick' else 60)
 
     # 1. hygiene ------------------------------------------------------------------------------
-    hy = coqrun.hygiene()
+    hy = coqrun.hygiene(pid)
     if hy:
         print('HYGIENE tripwire:\n  ' + '\n  '.join(hy))
         return 2
 
     # 2. proof obligations ---------------------------------------------------------------------
-    ok, log = coqrun.build()
+    ok, log = coqrun.build(pid)
     proofs = coqrun.check_props(pid) if ok else {
         'compiled': False, 'obligations': 0, 'discharged': 0, 'theorems': [], 'unprinted': [],
         'log': log}
